@@ -56,17 +56,17 @@ def _check(dec, chunks_expected, returned, log_events):
 
 
 @obligation(params=dict(w0=Int(0, 4), r0=Int(0, 3), gone=Bool(), t1=Int(0, 6), w1=Int(0, 5), size=Int(1, 3), tr=Int(0, 2),
-                        tmo=Int(0, 1)),
+                        tmo=Int(0, 1), hold=Int(0, 2)),
             tags={2: 'one os.read', 3: 'two reads joined in one call (pty)', 4: 'nothing read'}, timeout=400,
             split=('tr',),
             note='D1 for SpawnBase/fdspawn/pty read_nonblocking over the peer world (tr: 0 fd, 1 pty select, 2 pty poll)')
-def D1_fd_pty(w0, r0, gone, t1, w1, size, tr, tmo):
+def D1_fd_pty(w0, r0, gone, t1, w1, size, tr, tmo, hold=0):
     if not (r0 <= w0 <= w1):
         return SKIP
     tr = pick(tr, 0, 2)
     w = PeerWorld(w0, r0, gone, [(t1, 'w', w1), (t1 + 2, 'x', 0)], pty=(tr != 0))
     ev = Events()
-    dec = FakeDecoder()
+    dec = FakeDecoder(holds=[pick(hold, 0, 2), 0, 0])
     if tr == 0:
         sp = FD.fdspawn.__new__(FD.fdspawn)
         SB.SpawnBase.__init__(sp, timeout=1, encoding='utf-8')
@@ -165,19 +165,22 @@ class _Sock:
         return r
 
 
-@obligation(params=dict(n=Int(1, 4), size=Int(1, 4), uni=Bool()), tags={2: 'unicode mode', 3: 'bytes mode'}, timeout=200,
+@obligation(params=dict(n=Int(1, 4), size=Int(1, 4), uni=Bool(), hold=Int(0, 4)),
+            tags={2: 'unicode mode', 3: 'bytes mode', 4: 'the chunk holds no complete character: empty text, not EOF'}, timeout=200,
             note='D1 for SocketSpawn.read_nonblocking: what recv() gave goes through the decoder and the read log; '
                  'bytes mode returns the bytes unchanged')
-def D1_socket(n, size, uni):
+def D1_socket(n, size, uni, hold=0):
     data = STREAM[:pick(n, 1, 4)]
     sp = SK.SocketSpawn(_Sock(data), timeout=1, encoding='utf-8' if uni else None)
     ev = Events()
     sp.logfile_read = RecFile('r', ev)
     if uni:
-        dec = FakeDecoder()
+        dec = FakeDecoder(holds=[pick(hold, 0, 4)])
         sp._decoder = dec
-        got = sp.read_nonblocking(size, 1)
-        return 2 if _check(dec, data[:size], got, ev.ev) else 0
+        got = sp.read_nonblocking(size, 1)      # an EOF/TIMEOUT here would be a violation: the peer is connected
+        if not _check(dec, data[:size], got, ev.ev):
+            return 0
+        return 4 if len(got) == 0 else 2
     got = sp.read_nonblocking(size, 1)
     if got != data[:size]:
         return 0
@@ -287,6 +290,25 @@ CORPUS = [
 ]
 
 
+class _PieceSock:
+    """recv() hands out the scripted pieces one by one (whatever size was asked for)"""
+
+    def __init__(self, pieces):
+        self.pieces, self.t = list(pieces), None
+
+    def fileno(self):
+        return 7
+
+    def gettimeout(self):
+        return self.t
+
+    def settimeout(self, t):
+        self.t = t
+
+    def recv(self, n):
+        return self.pieces.pop(0) if self.pieces else b''
+
+
 class _SliceOS:
     def __init__(self, pieces):
         self.pieces = list(pieces)
@@ -297,11 +319,11 @@ class _SliceOS:
         return self.pieces.pop(0)
 
 
-@obligation(params=dict(k=Int(0, 4), c1=Int(0, 16), c2=Int(0, 16), err=Int(0, 2)),
-            tags={2: 'cut inside a multi-byte character', 3: 'cuts at character boundaries'}, timeout=600, split=('k',),
+@obligation(params=dict(k=Int(0, 4), c1=Int(0, 16), c2=Int(0, 16), err=Int(0, 2), tr=Int(0, 2)),
+            tags={2: 'cut inside a multi-byte character', 3: 'cuts at character boundaries'}, timeout=600, split=('k', 'tr'),
             note='D3: CPython\'s real incremental decoders through SpawnBase.read_nonblocking: three reads at symbolic '
                  'cut positions give decode(whole stream); enumerated through the solver')
-def D3_real_codecs(k, c1, c2, err):
+def D3_real_codecs(k, c1, c2, err, tr=0):
     k = pick(k, 0, 4)
     enc, text = CORPUS[k]
     err = ['strict', 'replace', 'ignore'][pick(err, 0, 2)]
@@ -318,17 +340,32 @@ def D3_real_codecs(k, c1, c2, err):
     c1 = pick(c1, 0, n)
     c2 = pick(c2, c1, n)
     pieces = [p for p in (data[:c1], data[c1:c2], data[c2:]) if p]
+    tr = pick(tr, 0, 2)
+
+    def build():
+        if tr == 0:
+            o = SB.SpawnBase(encoding=enc, codec_errors=err)
+            o.child_fd = 7
+        elif tr == 1:
+            o = SK.SocketSpawn(_PieceSock(pieces), encoding=enc, codec_errors=err, timeout=1)
+        else:
+            o = PO.PopenSpawn.__new__(PO.PopenSpawn)
+            SB.SpawnBase.__init__(o, encoding=enc, codec_errors=err, timeout=1)
+            o.closed = False
+            o._buf = ''
+            o._read_queue = _Q(pieces)
+        return o
     if tracing():
         from crosshair.tracers import NoTracing
         with NoTracing():
-            sp = SB.SpawnBase(encoding=enc, codec_errors=err)
+            sp = build()
     else:
-        sp = SB.SpawnBase(encoding=enc, codec_errors=err)
-    sp.child_fd = 7
+        sp = build()
     out = ''
-    with patched(SB, os=_SliceOS(pieces)):
+    from harness.common import Clock
+    with patched(SB, os=_SliceOS(pieces)), patched(PO, time=Clock(0)):
         for _ in pieces:
-            out = out + sp.read_nonblocking(100, 0)
+            out = out + sp.read_nonblocking(100, 0 if tr != 1 else 1)
     want = data.decode(enc, err)
     if out != want:
         return 0
@@ -344,7 +381,8 @@ def D3_real_codecs(k, c1, c2, err):
 def dry_runs():
     for k in range(5):
         for err in range(3):
-            yield 'D3_real_codecs', dict(k=k, c1=1, c2=3, err=err)
+            for tr in range(3):
+                yield 'D3_real_codecs', dict(k=k, c1=1, c2=3, err=err, tr=tr)
     yield 'D1_popen', dict(n=2, c1=1, c2=2, c3=1, size=3, carry=1)
     yield 'D1_socket', dict(n=3, size=2, uni=True)
     yield 'D1_async', dict(n=2, done=False)
